@@ -433,7 +433,8 @@ def module_files_case(ctx, case):
         generate_dataset(filename=os.path.join(d, tfn), problem=prob, dataset_size=N + 2, graph_sizes=[sizes[0]], seed=seed + 50, overwrite=True)
         cls = {"tsp": E.TSPEnv, "vrp": E.CVRPEnv}[prob]
         val_file = names if len(names) > 1 else names[0]
-        dl_names = [f"set{j}" for j in range(len(names))] if (len(names) > 1 and case.get("named")) else None
+        # (names deliberately not in alphabetical order: name j must stay with loader j and batch size j)
+        dl_names = [["zz_large", "aa_small", "mm_mid", "bb_extra", "yy"][j % 5] + (str(j) if j >= 5 else "") for j in range(len(names))] if (len(names) > 1 and case.get("named")) else None
         env = cls(generator_params=dict(num_loc=sizes[0]), data_dir=d, val_file=val_file, test_file=tfn, val_dataloader_names=dl_names, check_solution=False)
         # (the documented training-loader option must not leak into the validation / test loaders, which report per-position results)
         model = REINFORCE(env, policy=policies.make("am", env), baseline="no", batch_size=4, val_batch_size=bs, test_batch_size=bs, train_data_size=8, val_data_size=N, test_data_size=N,
